@@ -85,7 +85,7 @@ instance (n : Option Name) : Decidable (OptNameOK n) := by
   | .forward_ n => NameOK n
   | .bss nm len => OptNameOK nm ∧ len < 2 ^ 64
   | .ref nm it d => OptNameOK nm ∧ NameOK it ∧ d < 2 ^ 64
-  | .lref nm l1 l2 d => OptNameOK nm ∧ l1 < 2 ^ 64 ∧ (∀ l : Nat, l2 = some l → l < 2 ^ 63) ∧ d < 2 ^ 64
+  | .lref nm l1 l2 d => OptNameOK nm ∧ l1 < 2 ^ 64 ∧ (∀ l : Nat, l2 = some l → l < 2 ^ 63 ∧ (cfg.lrefZeroIsNone = true → l ≠ 0)) ∧ d < 2 ^ 64
   | .expr nm fn => OptNameOK nm ∧ NameOK fn
   | .data nm ty els => OptNameOK nm ∧ DataOK cfg ty els
   | .proto n _ res args =>
@@ -135,6 +135,6 @@ instance (cfg : Cfg) (ms : List Module) : Decidable (WF cfg ms) :=
 /-- the reader facts a correct reader would have: nothing of the vocabulary is excluded -/
 def Cfg.sound (cfg : Cfg) : Prop :=
   cfg.globalDoubleRead = false ∧ cfg.dataPtr = true ∧ cfg.nops.length ≤ cfg.codeLimit
-  ∧ cfg.endfuncLabels = true
+  ∧ cfg.endfuncLabels = true ∧ cfg.lrefZeroIsNone = false
 
 end BinIO
